@@ -80,6 +80,10 @@ Qed.
 Local Arguments two : simpl never.
 Local Arguments four : simpl never.
 
+(** [injection] would unfold [two]/[four] behind the constructor; peel exactly one character *)
+Lemma string_cons_inj a s s' : String a s = String a s' -> s = s'.
+Proof. intros H. injection H. auto. Qed.
+
 Lemma app_assoc_s (a b c : string) : ((a ++ b) ++ c = a ++ (b ++ c))%string.
 Proof. induction a; simpl; congruence. Qed.
 
@@ -103,8 +107,8 @@ Proof.
   destruct (civil_from_days (day_of t)) as [[y m] d] eqn:E. destruct (civil_from_days (day_of t')) as [[y' m'] d'] eqn:E'.
   destruct (ymd_bounds _ _ _ _ Ht E) as [By [Bm Bd]]. destruct (ymd_bounds _ _ _ _ Ht' E') as [By' [Bm' Bd']].
   rewrite !app_assoc_s. intros H.
-  apply four_inj in H; auto. destruct H as [-> H]. unfold dash in H. simpl in H. injection H as H.
-  apply two_inj in H; auto. destruct H as [-> H]. simpl in H. injection H as H.
+  apply four_inj in H; auto. destruct H as [-> H]. unfold dash in H. simpl in H. apply string_cons_inj in H.
+  apply two_inj in H; auto. destruct H as [-> H]. simpl in H. apply string_cons_inj in H.
   apply two_inj in H; auto. destruct H as [-> H]. split; auto.
   rewrite <- (days_from_civil_from_days _ _ _ _ E), <- (days_from_civil_from_days _ _ _ _ E'). reflexivity.
 Qed.
@@ -116,10 +120,10 @@ Proof.
   assert (Bh : 0 <= hour_of t < 100 /\ 0 <= hour_of t' < 100) by (unfold hour_of, sod; lia).
   assert (Bm : 0 <= minute_of t < 100 /\ 0 <= minute_of t' < 100) by (unfold minute_of, sod; lia).
   destruct k; try congruence; unfold date_string in H; rewrite ?app_assoc_s in H.
-  - apply ymd_inj in H; auto. destruct H as [Hd H]. unfold dash in H. simpl in H. injection H as H.
-    apply two_inj in H; try tauto. destruct H as [Hh H]. simpl in H. injection H as H.
+  - apply ymd_inj in H; auto. destruct H as [Hd H]. unfold dash in H. simpl in H. apply string_cons_inj in H.
+    apply two_inj in H; try tauto. destruct H as [Hh H]. simpl in H. apply string_cons_inj in H.
     apply two_inj in H; try tauto. destruct H as [Hm _]. apply round_of_fields; auto; congruence.
-  - apply ymd_inj in H; auto. destruct H as [Hd H]. unfold dash in H. simpl in H. injection H as H.
+  - apply ymd_inj in H; auto. destruct H as [Hd H]. unfold dash in H. simpl in H. apply string_cons_inj in H.
     apply two_inj in H; try tauto. destruct H as [Hh _]. apply round_of_fields; auto; congruence.
   - apply ymd_inj in H; auto. destruct H as [Hd _]. apply round_of_fields; auto; congruence.
 Qed.
@@ -134,8 +138,10 @@ Theorem name_injective : forall c t t', rot c <> Never -> 0 <= t < TCAL -> 0 <= 
   join_date c t = join_date c t' -> round_date (rot c) t = round_date (rot c) t'.
 Proof.
   intros c t t' Hk Ht Ht'. unfold join_date.
-  destruct (prefix c) as [p|], (suffix c) as [s|]; destruct (rot c) eqn:Ek; try congruence; intros H;
-    try (apply app_cancel_l in H; unfold dot in H; simpl in H; injection H as H);
-    try (eapply date_string_inj; eauto; congruence);
-    try (apply (date_string_inj _ t t' ""%string); auto; try congruence; rewrite !app_empty_r; exact H).
+  assert (G0 : forall k, k <> Never -> date_string k t = date_string k t' -> round_date k t = round_date k t').
+  { intros k Hk' H. apply (date_string_inj k t t' ""%string); auto. rewrite !app_empty_r. exact H. }
+  destruct (rot c) eqn:Ek; try congruence; destruct (prefix c) as [p|], (suffix c) as [s|]; intros H.
+  all: try (apply app_cancel_l in H; apply (app_cancel_l dot) in H).
+  all: try (apply G0; [congruence|exact H]).
+  all: eapply date_string_inj; eauto; congruence.
 Qed.
